@@ -120,9 +120,19 @@ def get_l2t(sls):
 def cls_short(k):
     return data()['cls_of'].get(k, 'other').split(':')[1]
 
+def other_converter(kind):
+    """another part of the program builds (and uses) a converter with the documented dictionary form of the whitespace
+    policy; this must not touch the policy of the default / strict converters of the round trip"""
+    from pylatexenc.latex2text import LatexNodes2Text
+    pol = {'lc': {'between-latex-constructs': False}, 'mc': {'between-macro-and-chars': False, 'after-comment': True},
+           'eq': {'in-equations': {'between-latex-constructs': False, 'between-macro-and-chars': False}}}[kind]
+    LatexNodes2Text(strict_latex_spaces=pol).latex_to_text('a \\alpha b {c} {d} $x {y}$ %e\n f')
+
 def run_impl(c):
     s = c['s']
     sn = NFC(s)
+    if c.get('other'):
+        other_converter(c['other'])
     pol = 'strict' if c['sls'] else 'default'
     try:
         res = get_encoder(c['prot']).unicode_to_latex(s)
@@ -294,6 +304,16 @@ def cases(tier, rng):
         c = rt(s, p, q)
         c['via'] = 'shorthand'
         c['pre'] = [dict(rng.choice(PRE), replacement_latex_protection=p) for _ in range(rng.randint(1, 2))]
+        yield c
+    # 4b. after another converter with a dictionary policy was built and used in the same process
+    for _ in range(300 if quick else 5000):
+        L = rng.randint(2, 8)
+        s = ''.join(rng.choice(A) if rng.random() < 0.6 else rng.choice('ab   \n') for _ in range(L))
+        if not par_clean(s):
+            continue
+        p, q = rng.choice(COMBOS)
+        c = rt(s, p, q)
+        c['other'] = rng.choice(['lc', 'mc', 'eq'])
         yield c
     # 5. through the two command-line tools
     for _ in range(150 if quick else 2500):
